@@ -642,7 +642,9 @@ mod fuse {
         fn lin_log2_seg_size(arity: usize, n: usize) -> u32 {
             match arity {
                 3 => {
-                    debug_assert!(n <= 2 * Self::HALF_MAX_LIN_SHARD_SIZE);
+                    // n is the size of the largest shard, which can exceed
+                    // the average size by 1%
+                    debug_assert!(n as f64 <= 1.01 * (2 * Self::HALF_MAX_LIN_SHARD_SIZE) as f64);
                     (0.85 * (n.max(1) as f64).ln()).floor().max(1.) as u32
                 }
                 _ => unimplemented!(),
